@@ -183,6 +183,12 @@ def Node.matchingRows : Nat → Node α → List Nat
   | _, .leaf _ _ rows => rows
   | fuel+1, .branch _ _ ch => (ch.map (fun p => Node.matchingRows fuel p.2)).flatten
 
+/-- the leaves of a tree, left to right -/
+def Node.leaves : Nat → Node α → List (Node α)
+  | 0, _ => []
+  | _+1, n@(.leaf ..) => [n]
+  | fuel+1, .branch _ _ ch => (ch.map (fun p => Node.leaves fuel p.2)).flatten
+
 /-- `Node.noisy_count()`: label seed from the mid-points of the released ranges, row counter over the matching
 rows, floored at `low_threshold`. -/
 def Node.noisyCount (E : Env α) (c : FCtx α) (n : Node α) : Except String Int :=
